@@ -32,6 +32,7 @@ META = {
 }
 
 KEY_INDENT = "dumbindent-second-raw-after-multiline-close"
+KEY_INDENT2 = "dumbindent-directive-continuation-survives-blank-lines"
 KEY_COMMENT_ONLY = "wuffsfmt-comment-only-source"
 
 JAVA_FAST = "-XX:TieredStopAtLevel=1"
@@ -88,13 +89,12 @@ def text_str(t):
 def clex_cfg(mode, lens=None, rows="none.json", extra_inv=()):
     lens = lens or {}
     c = ["CONSTANTS"]
-    for name, key in (("LenCmt", "cmt"), ("LenCmt2", "cmt2"), ("LenStr", "str"), ("LenPP", "pp"), ("LenNest", "nest"), ("LenAll", "all")):
+    for name, key in (("LenCmt", "cmt"), ("LenCmt2", "cmt2"), ("LenStr", "str"), ("LenPP", "pp"), ("LenPPB", "ppb"), ("LenNest", "nest"), ("LenAll", "all")):
         c.append("  %s = %d" % (name, lens.get(key, 0)))
     c.append('  RowsFile = "%s"' % rows)
     if mode == "gen":
-        c += ["INIT GenInit", "NEXT GenNext", "INVARIANTS Emit " + " ".join(extra_inv)]
-    elif mode == "consistent":
-        c += ["INIT GenInit", "NEXT GenNext", "INVARIANTS GenConsistent"]
+        # GenConsistent: the generator's incremental state equals Lex(text) (design-level)
+        c += ["INIT GenInit", "NEXT GenNext", "INVARIANTS Emit GenConsistent " + " ".join(extra_inv)]
     else:
         c += ["INIT ValInit", "NEXT ValNext", "INVARIANTS Judge"]
     c.append("CHECK_DEADLOCK FALSE")
@@ -119,6 +119,7 @@ class IndentAcc:
         self.harness = []
         self.flagged_lines = []   # generated texts with the known construct, driven at the end
         self.flagged_generated = 0
+        self.flagged2_generated = 0
         self.flagged_driven = 0
 
 
@@ -135,6 +136,8 @@ def indent_drive(ctx, binp, acc, prints, label, sample, kmax, flagged_too=False)
                 if line in acc.seen:
                     continue
                 acc.seen.add(line)
+                if '"k2":true' in line:
+                    acc.flagged2_generated += 1
                 if '"k":true' in line:
                     acc.flagged_lines.append(line)
                     acc.flagged_generated += 1
@@ -204,7 +207,7 @@ def indent_judge(ctx, acc):
             if "verdict" in o and "row" in o:
                 got[o["row"]] = o
         for i, row in enumerate(part, 1):
-            if (i in got) != bool(row["cand"]):
+            if (i in got) != bool(row["cand"]) and not row.get("noexp"):
                 raise ToolingError("harness comparison and CLexical!Judge disagree on %r: harness cand=%s, TLC %s" % (
                     text_str(row["t"]), row["cand"], got.get(i, "accepts")))
             if i in got:
@@ -215,21 +218,20 @@ def indent_judge(ctx, acc):
 def indent_part(ctx, binp, cov):
     thorough = ctx.tier == "thorough"
     acc = IndentAcc()
-    # design-level: the generator's incremental state equals Lex(text)
-    run_tlc(ctx, "CLexical", clex_cfg("consistent", {"cmt": 5, "cmt2": 4, "str": 4, "pp": 5, "nest": 3, "all": 3}),
-            "generator state = Lex(text)", timeout=1500)
     # the committed witness of the known finding, with the generous watchdog and the 4x confirmation
-    wpath = os.path.join(VERIF, "findings", "C12-" + KEY_INDENT + ".json")
-    wit_state = None
-    if os.path.exists(wpath):
-        wit_state = indent_witness(ctx, binp, json.load(open(wpath)))
-    bug_present = bool(wit_state and wit_state["rejected_by_tlc"])
+    wit_state = {}
+    for key, fld in ((KEY_INDENT, "known"), (KEY_INDENT2, "known2")):
+        wpath = os.path.join(VERIF, "findings", "C12-" + key + ".json")
+        if os.path.exists(wpath):
+            wit_state[key] = indent_witness(ctx, binp, json.load(open(wpath)), key, fld)
+            acc.val_rows += wit_state[key].pop("rows")
+    bug_present = bool(wit_state.get(KEY_INDENT) and wit_state[KEY_INDENT]["differing_from_expectation"])
     if thorough:
-        plan = [{"cmt": 9}, {"cmt2": 7}, {"str": 7}, {"pp": 6, "nest": 5}, {"all": 5}]
-        sample, kmax, simnum, kdrive = 1500, 300, 4000, 1200
+        plan = [{"cmt": 9}, {"cmt2": 7}, {"str": 7}, {"pp": 6, "ppb": 10, "nest": 5}, {"all": 5}]
+        sample, kmax, simnum, kdrive = 1500, 300, 300, 1200
     else:
-        plan = [{"cmt": 8, "cmt2": 6, "str": 6, "pp": 5, "nest": 4, "all": 4}]
-        sample, kmax, simnum, kdrive = 1200, 150, 250, 150
+        plan = [{"cmt": 8, "cmt2": 6, "str": 6, "pp": 5, "ppb": 8, "nest": 4, "all": 4}]
+        sample, kmax, simnum, kdrive = 1200, 150, 12, 150
     lens_all = {}
     for lens in plan:
         lens_all.update(lens)
@@ -239,8 +241,8 @@ def indent_part(ctx, binp, cov):
         del res
     gen_states = sum(t["distinct"] for t in ctx.tlc_stats if t["label"].startswith("indenter gen"))
     # long random texts, every profile
-    res = run_tlc(ctx, "CLexical", clex_cfg("gen", {k: 40 for k in ("cmt", "cmt2", "str", "pp", "nest", "all")}),
-                  "indenter simulate", simulate="num=%d" % simnum, depth=44, timeout=3000)
+    res = run_tlc(ctx, "CLexical", clex_cfg("gen", {k: 40 for k in ("cmt", "cmt2", "str", "pp", "ppb", "nest", "all")}),
+                  "indenter simulate", simulate="num=%d" % simnum, depth=44, timeout=3000, workers=4)
     before = acc.texts
     indent_drive(ctx, binp, acc, tlc_json_prints(res["out"]), "simulate", sample // 2, kmax)
     sim_texts = acc.texts - before
@@ -258,15 +260,20 @@ def indent_part(ctx, binp, cov):
 
     rejected = indent_judge(ctx, acc)
     nviol = 0
-    known_seen = 0
+    known_seen = known2_seen = 0
     for row, v in rejected:
         t = row["t"]
         rep = {"kind": "indent", "text": text_str(t), "text_bytes": t, "options": ["2 spaces", "4 spaces", "tabs"],
-               "verdict_per_option": v["verdict"], "known_construct": v["known"],
+               "verdict_per_option": v["verdict"], "known_construct": v["known"], "known_construct_2": v["known2"],
                "answers": [{"status": a["s"], "out": text_str(a["o"]), "status2": a["q"], "out2": text_str(a["p"]), "panic": a.get("msg", "")} for a in row["r"]]}
+        if row.get("wit") and not v[row["wit"]]:
+            raise ToolingError("committed witness %r does not contain its known construct according to CLexical" % text_str(t))
         if v["known"]:
             known_seen += 1
             rep["key"] = KEY_INDENT
+        elif v["known2"]:
+            known2_seen += 1
+            rep["key"] = KEY_INDENT2
         elif nviol >= 5:
             continue
         what = "dumbindent.FormatBytes on the lexically closed text %r: CLexical!Judge says %s" % (text_str(t), v["verdict"])
@@ -280,17 +287,19 @@ def indent_part(ctx, binp, cov):
         "known_construct_texts_passing": acc.flagged_ok,
         "answers_differing_from_expectation_without_known_construct": acc.cand_unflagged,
         "rows_judged_by_tlc": len(acc.val_rows), "rows_rejected_by_tlc": len(rejected),
+        "rejected_with_known_construct_1": known_seen, "rejected_with_known_construct_2": known2_seen,
+        "texts_generated_with_known_construct_2": acc.flagged2_generated,
         "known_construct_rows_not_sent_to_tlc": acc.cand_flagged_not_sent,
         "texts_changed_by_formatter": acc.changed, "committed_witness": wit_state, "harness_runs": acc.harness,
     }
     return acc
 
 
-def indent_witness(ctx, binp, w):
-    """Re-run the committed witness (k is not set, so the harness applies the
-    generous budget and confirms a non-result with 4x budget and 4x cap) and
-    let TLC judge it."""
-    d = ctx.subdir("witness")
+def indent_witness(ctx, binp, w, key, fld):
+    """Drive the committed witness texts (k is not set, so the harness applies
+    the generous budget and confirms a non-result with 4x budget and 4x cap).
+    The rows are judged by TLC together with all others."""
+    d = ctx.subdir("witness-" + fld)
     path = os.path.join(d, "w.ndjson")
     texts = [w["witness"]["text_bytes"]] + [m["text_bytes"] for m in w.get("minimal_witnesses", [])]
     with open(path, "w") as f:
@@ -301,21 +310,15 @@ def indent_witness(ctx, binp, w):
     if r.returncode != 0:
         raise ToolingError("fmtreplay (witness) failed: " + (r.stderr or "")[-2000:])
     st = json.loads(r.stdout.strip().splitlines()[-1])
+    if st["died"]:
+        raise ToolingError("fmtreplay: worker died on the committed witness")
     rows = json.load(open(out + "-000.json"))
-    res = run_tlc(ctx, "CLexical", clex_cfg("val", rows="rows.json"), "indenter witness judge",
-                  data={"rows.json": json.dumps(rows)}, fast=True, timeout=1500, workers=2)
-    got = [json.loads(js) for js in tlc_json_prints(res["out"])]
-    got = [o for o in got if "verdict" in o]
-    state = {"texts": len(texts), "rejected_by_tlc": len(got), "confirmed_with_4x_budget": st["confirmed_bad"], "harness": st}
-    for o in got:
-        if not o["known"]:
-            raise ToolingError("committed witness does not contain the known construct according to CLexical")
-        row = rows[o["row"] - 1]
-        ctx.violation("known finding still present: %r -> %s" % (text_str(row["t"]), o["verdict"]),
-                      {"key": KEY_INDENT, "kind": "indent", "text": text_str(row["t"]), "text_bytes": row["t"], "verdict_per_option": o["verdict"]})
-    ctx.log("committed witness of %s: %d of %d text(s) still rejected (%d non-results confirmed with 4x budget)" % (
-        KEY_INDENT, len(got), len(texts), st["confirmed_bad"]))
-    return state
+    for row in rows:
+        row["wit"] = fld
+    ncand = sum(1 for row in rows if row["cand"])
+    ctx.log("committed witness of %s: %d of %d text(s) still differ from the expectation (%d non-results confirmed with 4x budget)" % (
+        key, ncand, len(texts), st["confirmed_bad"]))
+    return {"texts": len(texts), "differing_from_expectation": ncand, "confirmed_with_4x_budget": st["confirmed_bad"], "harness": st, "rows": rows}
 
 
 # ------------------------------------------------------------------ wuffsfmt
@@ -358,9 +361,9 @@ def is_comment_only(row):
 def wuffs_part(ctx, binp, cov):
     thorough = ctx.tier == "thorough"
     if thorough:
-        size, schemes, simnum, simdecls, sample, filecap = 2, ALL_SCHEMES, 2500, 6, 1200, 10 ** 9
+        size, schemes, simnum, simdecls, sample, filecap = 2, ALL_SCHEMES, 6000, 6, 1200, 10 ** 9
     else:
-        size, schemes, simnum, simdecls, sample, filecap = 1, sorted(ctx.rng.sample(ALL_SCHEMES, 3)), 150, 5, 350, 5000
+        size, schemes, simnum, simdecls, sample, filecap = 1, sorted(ctx.rng.sample(ALL_SCHEMES, 3)), 400, 5, 350, 5000
     d = ctx.subdir("wuffs")
     src_path = os.path.join(d, "sources.ndjson")
     items = []
@@ -375,7 +378,7 @@ def wuffs_part(ctx, binp, cov):
             n_gen += 1
     del res
     res = run_tlc(ctx, "WuffsLayout", wl_cfg("sim", size, schemes, simdecls), "wuffsfmt simulate",
-                  simulate="num=%d" % simnum, depth=simdecls + 2, timeout=3000)
+                  simulate="num=%d" % simnum, depth=simdecls + 2, timeout=3000, workers=1)
     n_sim = 0
     for js in tlc_json_prints(res["out"]):
         if js not in seen:
@@ -522,6 +525,8 @@ def replay(ctx, path):
             rep2 = dict(rep)
             if got[0]["known"]:
                 rep2["key"] = KEY_INDENT
+            elif got[0]["known2"]:
+                rep2["key"] = KEY_INDENT2
             ctx.violation("replayed: CLexical!Judge says %s for %r" % (got[0]["verdict"], rep["text"]), rep2)
         else:
             print("replayed: accepted by CLexical!Judge now")
